@@ -23,6 +23,8 @@ type raceStream struct {
 	table  string
 	ops    []string
 	wt     int
+	// the prefix holds two unmerged versions before the stream opens its table
+	twoVersions bool
 }
 
 // runStream executes one connection's stream and returns its observable outputs.
@@ -32,6 +34,18 @@ func runStream(s *raceStream) []string {
 	defer db.Close()
 	x := func(q string, a ...any) { out = append(out, classOnly(sqlh.XS(db, q, a...))) }
 	q := func(qs string, a ...any) { out = append(out, sqlh.QS(db, qs, a...)) }
+	if s.twoVersions && s.bucket != "" {
+		// leave two unmerged versions under the prefix first (two writers that did not see each other), so that
+		// the stream's own open, and every refresh, merges several versions while other connections do the same
+		p1, p2 := sqlh.Open(), sqlh.Open()
+		n1, n2 := s.table+"_p1", s.table+"_p2"
+		sqlh.Exec(p1, sqlh.CreateSQL(sqlh.TableOpts{Name: n1, Bucket: s.bucket, Prefix: s.prefix, Columns: "k primary key, a", EntriesPerNode: 4}))
+		sqlh.Exec(p2, sqlh.CreateSQL(sqlh.TableOpts{Name: n2, Bucket: s.bucket, Prefix: s.prefix, Columns: "k primary key, a", EntriesPerNode: 4}))
+		sqlh.Exec(p1, fmt.Sprintf(`insert into "%s" values(?,?)`, n1), s.idx*10000+9001, "p1")
+		sqlh.Exec(p2, fmt.Sprintf(`insert into "%s" values(?,?)`, n2), s.idx*10000+9002, "p2")
+		p1.Close()
+		p2.Close()
+	}
 	if s.bucket == "" {
 		x(fmt.Sprintf(`create virtual table "%s" using s3db (entries_per_node=4, s3_prefix='%s', columns='k primary key, a')`, s.table, s.prefix))
 	} else {
@@ -98,7 +112,7 @@ func raceCmd(args []string) int {
 	fs.Parse(args)
 	setKnown(*kn)
 	st := NewStats("race", *seed)
-	st.Rule = "m = 2-6 connections, each in its own goroutine with its own tables (own bucket, or a shared bucket with its own prefix), run independent streams (create, write_time/deadline set and read back, inserts, transactions committed and rolled back, updates, deletes, selects, s3db_refresh, s3db_version, s3db_vacuum, drop) concurrently in a binary built with the race detector; every connection's outputs are compared with the same stream run alone; then 2-4 connections CREATE a table of the same name at once (storage LISTs held for 30 ms so that the opens overlap): exactly one succeeds and can use its table; a data-race report, a deadlock (time limit) or a difference is a failure; each case runs in a child process; distinct = distinct set of streams (all non-trivial)"
+	st.Rule = "m = 2-6 connections, each in its own goroutine with its own tables (own bucket, or a shared bucket with its own prefix), run independent streams (two thirds of them on a prefix that already holds two unmerged versions, so that opens and refreshes merge; create, write_time/deadline set and read back, inserts, transactions committed and rolled back, updates, deletes, selects, s3db_refresh, s3db_version, s3db_vacuum, drop) concurrently in a binary built with the race detector; every connection's outputs are compared with the same stream run alone; then 2-4 connections CREATE a table of the same name at once (storage LISTs held for 30 ms so that the opens overlap): exactly one succeeds and can use its table; a data-race report, a deadlock (time limit) or a difference is a failure; each case runs in a child process; distinct = distinct set of streams (all non-trivial)"
 	isChild, from, to := childRange()
 	if !isChild {
 		NewEmitter(*outp+".ops", *outp+".exp").Close()
@@ -155,6 +169,7 @@ func raceCmd(args []string) int {
 					s.bucket = sharedBucket
 					s.prefix = fmt.Sprintf("%s%d", tag, c)
 				}
+				s.twoVersions = rr.Chance(2, 3)
 				for j := 0; j < 8+rr.Intn(10); j++ {
 					switch op := rr.Intn(14); {
 					case op < 4:
